@@ -104,9 +104,13 @@ func c09FromJSON(raw json.RawMessage, idField string) (c09Response, error) {
 
 func TestC09(t *testing.T) {
 	c := evid.New("C09")
-	c.Rule = "lists of 1-8 postings (one case in eight: 9-36 postings over 9-30 distinct accounts): accounts from the full address grammar (segments with - _ :, world on either side, self-transfers), assets from the full asset grammar, amounts {0,1,..,2^63-1,2^63,2^64,10^k,random >64-bit}, repeated accounts and repeated (amount, asset) pairs, chains where posting k spends what posting k-1 delivered; metadata, reference, explicit timestamps (any zone, 0-9 fractional digits) or none; starting balances seeded by funding transactions; invalid variants (negative amount, malformed address or asset, one bad posting in the middle, insufficient funds). Four entry points over a real Commander + model store: Commander.CreateTransaction(TxToScriptData), POST /v2/{l}/transactions, POST /{l}/transactions (v1), a CREATE_TRANSACTION bulk element (which follows 0-2 other CREATE_TRANSACTION elements with metadata, reference and timestamp of their own: nothing of theirs may reach it, a request without reference is never answered CONFLICT, a request without timestamp never carries another element's). Oracle: success => the answer and the single new NEW_TRANSACTION log entry contain exactly the requested postings (no normalisation), metadata, reference and instant (microseconds); failure => error answer, no entry, balances unchanged. Non-trivial = >=3 postings with a repeated account or repeated monetary, or a chain, or a zero / >64-bit amount; distinct by (entry point, postings, balances)."
-	c.Assumptions = []string{"the PostgreSQL store is replaced by the model store (harness/enginesim); one request at a time"}
+	c.Rule = "lists of 1-8 postings (one case in eight: 9-36 postings over 9-30 distinct accounts): accounts from the full address grammar (segments with - _ :, world on either side, self-transfers), assets from the full asset grammar, amounts {0,1,..,2^63-1,2^63,2^64,10^k,random >64-bit}, repeated accounts and repeated (amount, asset) pairs, chains where posting k spends what posting k-1 delivered; metadata, reference, explicit timestamps (any zone, 0-9 fractional digits) or none; starting balances seeded by funding transactions; invalid variants (negative amount, malformed address or asset, one bad posting in the middle, insufficient funds). Four entry points over a real Commander + model store: Commander.CreateTransaction(TxToScriptData), POST /v2/{l}/transactions, POST /{l}/transactions (v1), a CREATE_TRANSACTION bulk element (which follows 0-2 other CREATE_TRANSACTION elements with metadata, reference and timestamp of their own: nothing of theirs may reach it, a request without reference is never answered CONFLICT, a request without timestamp never carries another element's). One case in 30 is parallel: 10-40 rounds of 2-8 real goroutines submit posting lists of six different shapes over private accounts at the same time; every answer must carry its own request's postings. Oracle: success => the answer and the single new NEW_TRANSACTION log entry contain exactly the requested postings (no normalisation), metadata, reference and instant (microseconds); failure => error answer, no entry, balances unchanged. Non-trivial = >=3 postings with a repeated account or repeated monetary, or a chain, or a zero / >64-bit amount; distinct by (entry point, postings, balances)."
+	c.Assumptions = []string{"the PostgreSQL store is replaced by the model store (harness/enginesim); one request at a time, except in the parallel family, whose schedule is the operating system's (a miss proves nothing there, a hit is a defect)"}
 	runProp(t, c, func(rt *rapid.T) {
+		if rapid.IntRange(0, 29).Draw(rt, "parallelFamily") == 0 {
+			c09Parallel(rt, c)
+			return
+		}
 		store, commander, stop := enginesim.Standalone()
 		defer stop()
 		ctx := logging.ContextWithLogger(context.Background(), nopLog{})
